@@ -309,6 +309,13 @@ theorem metric_sum {K : Type} [Zero K] [Add K] [Sub K] [Mul K] [Div K] [Neg K] [
     (lin (.add a b) ρ wm).metric = some (fun h k i => ma h k i + mb h k i) := by
   simp only [lin, ha, hb]
 
+/-- `ScalingOperator.__call__`: scaling an energy by a non-negative factor scales its metric by the same factor -/
+theorem metric_scale {K : Type} [Zero K] [Add K] [Sub K] [Mul K] [Div K] [Neg K] [OfScientific K]
+    [LT K] [DecidableLT K] [LE K] [DecidableLE K] [Transc K] (c : K) (hc : (0 : K) ≤ c) (a : Ex K) (ρ : MVal K)
+    (wm : Bool) (M : MVal K → MVal K) (ha : (lin a ρ wm).metric = some M) :
+    (lin (.scale c a) ρ wm).metric = some (fun h k i => c * M h k i) := by
+  simp only [lin, ha, hc, if_true, Option.map]
+
 theorem metric_sum_none {K : Type} [Zero K] [Add K] [Sub K] [Mul K] [Div K] [Neg K] [OfScientific K]
     [LT K] [DecidableLT K] [LE K] [DecidableLE K] [Transc K] (a b : Ex K) (ρ : MVal K) (wm : Bool)
     (h : (lin a ρ wm).metric = none ∨ (lin b ρ wm).metric = none) :
